@@ -12,7 +12,7 @@ import sys
 from vmon import core
 from vmon import monitors as M
 
-TEXT = "See Foo v. Bar, 1 U.S. 1 (1999). Id. at 5. § 3; “2 U. S. 2” Roe, 3 U.S. at 4, supra."
+TEXT = "See Foo v. Bar, 1 U.S. 1 (1999). Id. at 5. § 3; “2 U. S. 2” Roe, 3 U.S. at 4, supra. SEE 4 u.s. 5; ID. AT 6; 7 U.Z. 8"
 WRITES = {"n": 0}
 _orig_write_bytes = pathlib.Path.write_bytes
 
@@ -112,6 +112,26 @@ def apply_fault(f, fx, cache_dir):
             open(os.path.join(cache_dir, "0" * 32), "wb").write(b"stale database of other patterns")
         elif f["state"] == "file_in_the_way_removed":
             os.makedirs(cache_dir)
+        return True
+    elif k == "cache_filled_by_variant":
+        # the directory already holds the database of a near-identical extractor list (same patterns with
+        # other flags / one pattern changed / other order): it must not be served for this list
+        import re as _re
+        from eyecite.models import TokenExtractor
+        shutil.rmtree(cache_dir, ignore_errors=True)
+        os.makedirs(cache_dir)
+        var = []
+        for j, e in enumerate(fx.extractors):
+            flags, regex = e.flags, e.regex
+            if f["variant"] == "flags":
+                flags = e.flags ^ _re.I
+            elif f["variant"] == "one_regex" and j == 0:
+                regex = e.regex.replace("U\\.S\\.", "U\\.Z\\.")
+            var.append(TokenExtractor(regex, e.constructor, extra=e.extra, flags=flags, strings=list(e.strings)))
+        if f["variant"] == "order":
+            var = var[1:] + var[:1]
+        t = fx.HT(extractors=var, cache_dir=cache_dir)
+        t.hyperscan_db
         return True
     elif k == "concurrent_first_construction":
         shutil.rmtree(cache_dir, ignore_errors=True)
